@@ -13,7 +13,8 @@
         sweep of `temp_connections`, then UdpServerThread.send,
      X  when ctxt._active was cleared during the iteration: the shutdown sweep + handler.shutdown.
    Every try/except of the code is a match on a `raised` flag here; every place where the code has
-   NO try/except is an explicit SDied output (the loop thread is gone, s_dead).
+   NO try/except would be an explicit SDied output (the loop thread is gone, s_dead): after the
+   fix of UdpServerThread.send none is left; s_dead remains for get_token drawing for ever.
 
    Oracles: the handler (what each call does: client.disconnect()/client.send(...) on connected
    clients, and whether it raises), os.urandom (raw 32-bit values, s_rand), handshake payload
@@ -61,7 +62,7 @@ Record srv := mkSrv {
   s_block : list Z;         (* ctxt.blocklist *)
   s_cfg : cfg;
   s_active : bool;          (* the thread is inside (or before) its while loop *)
-  s_dead : bool;            (* an exception escaped run(), or get_token never returned *)
+  s_dead : bool;            (* get_token never returned *)
   s_next_id : Z;            (* identity of the next ServerClientConnection object *)
   s_calls : Z;              (* number of handler calls made so far (index into the handler oracle) *)
   s_rand : list Z           (* os.urandom(4) values still available in this iteration *)
@@ -104,7 +105,8 @@ Inductive sout :=
   | SUpdErr (cid : Z)                   (* "unhandled error during client update/disconnect" *)
   | SHello (cid : Z) (a : addr) (token key : Z)   (* ghost: _recvClientHello accepted, token issued, key derived *)
   | SChalOk (cid : Z) (token : Z) (key : option Z) (* ghost: _validateChallengeResponse returned True *)
-  | SDied (cause : Z).                  (* 1: get_token never returns; 2: exception escaped send() *)
+  | SSendErr (a : addr)                 (* "unable to send packet": exception caught in send() *)
+  | SDied (cause : Z).                  (* 1: get_token never returns (the only way the loop stops serving) *)
 
 Definition icb_of (z : Z) : icb := if z =? -1 then INone else IUser z.
 
@@ -367,22 +369,16 @@ Fixpoint sweep_list (f : srv -> Z -> srv * list sout * list pending) (s : srv) (
       let '(s2, o2, p2) := sweep_list f s1 r in (s2, o1 ++ o2, p1 ++ p2)
   end.
 
-(* UdpServerThread.send: pkt.to_bytes(key) under a try/except that only logs, then sock.sendto
-   with whatever `datagram` holds (the previous packet's bytes, or nothing: UnboundLocalError);
-   sock.sendto itself is not protected: the OS refuses port 0 (EINVAL) *)
+(* UdpServerThread.send (after the fix): pkt.to_bytes(key) and sock.sendto under one try/except
+   that logs and goes on with the next packet.  to_bytes raises when a header field does not fit
+   its struct format; the OS refuses port 0 (EINVAL). *)
 Definition sock_refuses (a : addr) : bool := snd a =? 0.
 
-Fixpoint send_all (prev : option (header * option Z * list byte)) (l : list pending) : list sout * bool :=
+Fixpoint send_all (l : list pending) : list sout :=
   match l with
-  | [] => ([], false)
+  | [] => []
   | (a, hd, k, p) :: r =>
-      let cur := if header_ok hd then Some (hd, k, p) else prev in
-      match cur with
-      | None => ([SDied 2], true)
-      | Some (hd', k', p') =>
-          if sock_refuses a then ([SDied 2], true)
-          else let '(o, dead) := send_all cur r in (SSend a hd' k' p' :: o, dead)
-      end
+      (if header_ok hd && negb (sock_refuses a) then SSend a hd k p else SSendErr a) :: send_all r
   end.
 
 (* the shutdown sweep after the loop *)
@@ -423,9 +419,8 @@ Definition srv_du (h : horacle) (e : env) (s : srv) (i : sin) : srv * list sout 
 Definition srv_sx (h : horacle) (e : env) (s : srv) (i : sin) : srv * list sout :=
   let '(s3, o3, p3) := sweep_list (fun s cid => sweep_conn h e s (i_ts i) cid) s (map cl_id (s_conns s)) in
   let '(s4, o4, p4) := sweep_list (fun s cid => sweep_temp e s (i_ts i) cid) s3 (map cl_id (s_temp s3)) in
-  let '(o5, dead) := send_all None (p3 ++ p4) in
-  if dead then (s4 <| s_dead := true |>, o3 ++ o4 ++ o5)
-  else if i_stop i then
+  let o5 := send_all (p3 ++ p4) in
+  if i_stop i then
     let '(s6, o6) := srv_shutdown h e s4 in (s6, o3 ++ o4 ++ o5 ++ o6)
   else (s4, o3 ++ o4 ++ o5).
 
